@@ -28,3 +28,28 @@ package otlploghttp
 //@   assert@call bodyReader#1 : $arg0 === body
 //@   ghost@call bodyReader#* : brCalls = brCalls + 1
 //@   assert@store bodyReader#* : brCalls == 1
+
+// ======================================================================== C20 configuration resolvers of the log exporter
+// getenv: an explicitly set value is never replaced by the environment; when the resolver gives up (result unset) it has read
+// EVERY key of its list - an unparsable value under an earlier (more specific) key does not hide a valid value under a later one;
+// the input setting is returned untouched in that case. conv is the captured conversion function: every call of getenv in
+// this package passes a declared function (convEndpoint, convPath, ...), the precondition on it is not checked at those calls
+//@ ghost var envReads int
+//@ func getenv$1(s setting[$N]) (r setting[$N])
+//@   prop C20
+//@   instances string; bool; time.Duration
+//@   overflow assumed
+//@   unchecked frame error handler and the conversion function are outside the contracts
+//@   requires conv != nil
+//@   modifies ghost envReads
+//@   ghost@entry : envReads = 0
+//@   ghost@call Getenv#* : envReads = envReads + 1
+//@   loop#1 invariant envReads == $k && s == old(s)
+//@   ensures old(s.Set) ==> r == old(s)
+//@   ensures !old(s.Set) && !r.Set ==> r == old(s) && envReads == len(keys)
+//@ func fallback$1(s setting[$N]) (r setting[$N])
+//@   prop C20
+//@   instances string; bool; time.Duration
+//@   ensures !s.Set ==> r.Set && r.Value == val
+//@   ensures s.Set ==> r == s
+//@   modifies
